@@ -210,6 +210,8 @@ def io_sequence(func, names, idx):
     """Sequence of primitive stream transfers in a function: list of (op, size or 'cstr', loop depth)."""
     out = []
 
+    inlined = []
+
     def visit(n, depth):
         k = n.get('kind')
         if k in ('ForStmt', 'WhileStmt', 'CXXForRangeStmt', 'DoStmt'):
@@ -218,6 +220,18 @@ def io_sequence(func, names, idx):
             return
         if k in cast.CALL_KINDS:
             kind, name, did, obj = callee_of(n)
+            g = idx.func_by_id.get(did) if did else None
+            if g is not None and getattr(g, 'defn', None) and g.body is None:
+                g = g.defn
+            if name not in names and g is not None and g.body is not None and len(inlined) < 12 and g.id not in inlined and \
+                    g.qname.split('::')[0] in ('hexasm', 'hexsim', 'hex'):
+                # a helper of the repository that does the transfer (writeWord, readWord ...): its transfers happen here
+                inlined.append(g.id)
+                for c in children(n):
+                    visit(c, depth)
+                visit(g.body, depth)
+                inlined.pop()
+                return
             if name in names:
                 a = cast.call_args(n)
                 size = None
@@ -268,14 +282,29 @@ def rule_format(rep, idx):
             'writer %s | reader %s' % (wshape, rshape))
     # pair roles: writer (index from a counter, offset from pair.second); reader (first indexes the strings, second is stored as the offset)
     wr_ok = False
+    wr_known = True
     pair_writes = [c for c in cast.calls_in(wdbg.body) if callee_of(c)[1] == 'write']
-    if len(pair_writes) >= 2:
-        a_idx = cast.call_args(pair_writes[-2])[0]
-        a_off = cast.call_args(pair_writes[-1])[0]
+    pair_args = [cast.call_args(c)[0] for c in pair_writes[-2:]] if len(pair_writes) >= 2 else None
+    if pair_args is None:
+        # the words may be written through a helper (writeWord(stream, value)): the value argument of its last two calls
+        helper_calls = []
+        for c in cast.calls_in(wdbg.body):
+            g = ia.func_by_id.get(callee_of(c)[2]) if callee_of(c)[2] else None
+            if g is not None and getattr(g, 'defn', None) and g.body is None:
+                g = g.defn
+            if g is not None and g.body is not None and any(callee_of(x)[1] == 'write' for x in cast.calls_in(g.body)) and cast.call_args(c):
+                helper_calls.append(c)
+        if len(helper_calls) >= 2:
+            pair_args = [[a for a in cast.call_args(c) if 'stream' not in (qt(a) + dqt(a))][-1] for c in helper_calls[-2:]]
+        else:
+            wr_known = False
+    if pair_args is not None:
+        a_idx, a_off = pair_args
         vi = [x.get('referencedDecl', {}).get('name') for x in walk(a_idx) if x['kind'] == 'DeclRefExpr']
         vo = [x.get('referencedDecl', {}).get('id') for x in walk(a_off) if x['kind'] == 'DeclRefExpr']
         off_decl = ia.by_id.get(vo[0]) if vo else None
-        from_second = off_decl is not None and any(y['kind'] == 'MemberExpr' and y.get('name') == 'second' for y in walk(off_decl))
+        from_second = (off_decl is not None and any(y['kind'] == 'MemberExpr' and y.get('name') == 'second' for y in walk(off_decl))) or \
+            any(y['kind'] == 'MemberExpr' and y.get('name') == 'second' for y in walk(a_off))
         incr = any(x['kind'] == 'UnaryOperator' and x.get('opcode') == '++' and vi and
                    x.get('inner') and cast.strip(children(x)[0]).get('referencedDecl', {}).get('name') == vi[0] for x in walk(wdbg.body))
         wr_ok = from_second and incr
@@ -289,7 +318,10 @@ def rule_format(rep, idx):
         reads = [c for c in cast.calls_in(rd.body) if callee_of(c)[1] == 'read']
         last_read_var = [x.get('referencedDecl', {}).get('name') for x in walk(cast.call_args(reads[-1])[0]) if x['kind'] == 'DeclRefExpr']
         rd_ok = first_is_string and bool(second_names) and second_names[:1] == last_read_var[:1]
-    rep.add('R2', 'pair-roles', wr_ok and rd_ok, pos(wdbg.node) + ' / ' + pos(rd.node),
+    if not wr_known:
+        rep.undecided('R2', 'pair-roles', 'the writer of the (index, offset) pairs is not in a recognised shape', pos(wdbg.node))
+    else:
+      rep.add('R2', 'pair-roles', wr_ok and rd_ok, pos(wdbg.node) + ' / ' + pos(rd.node),
             'writer emits (running index, pair.second): %s; reader stores (strings[first word], second word): %s' % (wr_ok, rd_ok))
     # emitBin: image then debug info
     order = [callee_of(c)[1] for c in cast.calls_in(wbin.body) if callee_of(c)[1] in ('emitProgramBin', 'emitDebugInfo')]
@@ -435,8 +467,26 @@ def rule_symbols(rep):
     ix = cast.load('xcmp.cpp')
     low = [c for c in ix.record('xcmp::LowerDirectives').ctors if not c.node.get('isImplicit')][0]
     # in the PROLOGUE case: genFunc under type==FUNC, genProc under type==PROC, once each
-    calls = [callee_of(c)[1] for c in cast.calls_in(low.body) if callee_of(c)[1] in ('genFunc', 'genProc')]
-    rep.add('R3', 'LowerDirectives:one-symbol-per-prologue', sorted(calls) == ['genFunc', 'genProc'], pos(low.node) + ' xcmp::LowerDirectives',
+    # ... in the constructor or in the member functions of LowerDirectives it calls (the lowering may be split into helpers)
+    bodies = [low.body]
+    seen_ids = set()
+    for _ in range(3):
+        for b_ in list(bodies):
+            for c in cast.calls_in(b_):
+                g = ix.func_by_id.get(callee_of(c)[2]) if callee_of(c)[2] else None
+                if g is not None and getattr(g, 'defn', None) and g.body is None:
+                    g = g.defn
+                if g is not None and g.body is not None and g.qname.startswith('xcmp::LowerDirectives::') and g.id not in seen_ids:
+                    seen_ids.add(g.id)
+                    bodies.append(g.body)
+    calls = [callee_of(c)[1] for b_ in bodies for c in cast.calls_in(b_) if callee_of(c)[1] in ('genFunc', 'genProc')]
+    if sorted(calls) != ['genFunc', 'genProc']:
+        rep.undecided('R3', 'LowerDirectives:one-symbol-per-prologue', 'symbol directives generated by the lowering: %s (expected one genFunc and one '
+                      'genProc site): shape not recognised' % calls, pos(low.node) + ' xcmp::LowerDirectives') if calls else None
+    if sorted(calls) != ['genFunc', 'genProc'] and calls:
+        calls = None
+    if calls is not None:
+      rep.add('R3', 'LowerDirectives:one-symbol-per-prologue', sorted(calls) == ['genFunc', 'genProc'], pos(low.node) + ' xcmp::LowerDirectives',
             'symbol directives generated: %s' % calls, nontrivial=False)
     vp = ix.func('xcmp::CodeGen::visitPre', 'Proc')
     pro = [c for c in cast.calls_in(vp.body) if callee_of(c)[1] == 'genPrologue']
